@@ -28,6 +28,21 @@ CHECKS = {
    text="Every estimator is refitted from identical data/parameters/seed in thread pools of different sizes under contention and in fresh processes; the canonical dump (bit patterns; label/word-keyed maps in key order) must be identical. Large datasets make the parallel k-means/GMM loops split; hash-order sensitive cases (tied leaves, tied posteriors, cluster ids, weighted impurity sums) and default-seeded builders are included. Interleavings are sampled, not enumerated.",
    note="Trusts the canonical dump (serde_json objects sorted by key, f64 bit patterns). k-means||, p-values, unseeded FastICA and t-SNE are excluded exactly as the property says. The evidence reports how many distinct schedules the probe observed.",
    ref="DESIGN.md §5 C20"),
+ "C02": dict(
+   technique="runtime history monitor: random programs of 1-8 dataset operations over identity-tagged datasets (records, targets, weights, names), exact decode-and-check oracle per step; enumerated sweeps for split ratios, label filters, chunking and the three iterators",
+   text="Each program applies real dataset operations one after another (every output feeding the next, owned and view forms, Ix1/Ix2 targets, three label types, hostile memory layouts incl. arrays sliced in place); after every step the oracle decodes every returned cell back to its original sample/column and checks alignment and the documented selection law exactly. Four small scopes (split ratios, label matrices, chunk sizes, iterators) are enumerated completely.",
+   note="Trusts the tag arithmetic (all tags < 2^24, exact in f32/f64) and the harness's own reading of the selection laws from the property text. Results that legitimately drop weights/names are not alarms; a 0-row strided view hitting ndarray's debug assertion is inconclusive.",
+   ref="DESIGN.md §5 C02"),
+ "C05": dict(
+   technique="runtime monitor: first-principles reference implementations (f64, compensated sums) of every metric over exhaustive small label/score spaces and random vectors, all receiver/argument forms and layouts, permutation metamorphic check",
+   text="Confusion-matrix cells and derived scores, ROC/AUC (Mann-Whitney with ties 1/2), log-loss, the eight regression scores per column, silhouette and Pearson coefficients are recomputed from their definitions for every generated input: all label-vector pairs over a 3-symbol alphabet up to length 5 (7 thorough), all score vectors on the 1/8 grid up to length 5 (6), random longer inputs with offsets/scales, f32 and f64. Exhaustive inside those scopes, sampled outside.",
+   note="Trusts the harness oracles and the Debug rendering used to read private confusion-matrix cells. Noise-floor comparisons sit >= 77x above the largest clean residual. The explained-variance formula defect is a recorded known finding with a discriminating signature.",
+   ref="DESIGN.md §5 C05"),
+ "C17": dict(
+   technique="runtime monitor: independent recounter (NFKD, lowercase, tokenise, n-gram windows, document-frequency window, stop words, feature cap with tie class, idf formulas) over exhaustive small corpora x settings and random corpora",
+   text="Vocabulary, count matrix (training and unseen documents) and tf-idf entries of the real vectorisers are compared cell by cell with a naive recount written from the documented semantics, for every corpus over a 2-word alphabet up to 3 documents x 360 settings (more in thorough) and random corpora with hostile text (accents, ligatures, punctuation, empty documents). Exact comparison; tf-idf with a 64*eps floor.",
+   note="Trusts the regex crate for regex tokenisers (same expression on both sides) and unicode-normalization. fit_files/transform_files are not driven (need the encoding crate).",
+   ref="DESIGN.md §5 C17"),
 }
 
 NOT_YET = {}
